@@ -132,12 +132,12 @@ class G:
                 rhs = f"(({rhs} & 0xff) + 1)"
             return f"{t} {op} {rhs};"
         if c < 0.65:
-            s = f"if ({self.expr(2)}) {{ {self.block(d - 1)} }}"
+            s = f"if ({self.expr(2)}) {self.arm(d - 1)}"
             k = self.r.random()
             if k < 0.45:
-                s += f" else {{ {self.block(d - 1)} }}"
+                s += f" else {self.arm(d - 1)}"
             elif k < 0.6:
-                s += f" else if ({self.expr(1)}) {{ {self.block(d - 1)} }} else {{ {self.block(d - 1)} }}"
+                s += f" else if ({self.expr(1)}) {self.arm(d - 1)} else {self.arm(d - 1)}"
             return s
         if c < 0.8 and self.depth_loop < 2 and "loops" not in self.avoid:
             v = self.loopvars[self.depth_loop]
@@ -146,6 +146,8 @@ class G:
             self.depth_loop -= 1
             bound = self.r.choice([str(self.r.randint(0, 4)), f"({self.r.choice(['RsV', 'RtV', 'uiV'])} & {self.r.choice([3, 7])})", "((RtV >> 3) & 7) + 1"])
             step = self.r.choice([f"{v}++", f"{v}++", f"{v} += 1", f"{v} = {v} + 1", f"{v} += 2"])
+            if "bare_arms" not in self.avoid and ";" not in body.rstrip(";") and not body.startswith(("if", "{", ";")) and self.r.random() < 0.5:
+                return f"for ({v} = 0; {v} < {bound}; {step}) {body}"
             return f"for ({v} = 0; {v} < {bound}; {step}) {{ {body} }}"
         if c < 0.86 and self.locals and "postfix" not in self.avoid:
             l = self.r.choice(list(self.locals))
@@ -177,6 +179,16 @@ class G:
 
     def block(self, d):
         return " ".join(self.stmt(d) for _ in range(self.r.randint(1, 3)))
+
+    def arm(self, d):
+        """an if/else arm: a braced block, or (1 in 4) one unbraced simple statement.
+        Never an unbraced `if` (listed finding dangling_else) or an empty statement (listed finding if_empty_body_is_call)."""
+        if "bare_arms" not in self.avoid and self.r.random() < 0.25:
+            for _ in range(4):
+                s = self.stmt(0 if self.r.random() < 0.6 else d)
+                if not s.startswith(("if", "{", ";", "for")):
+                    return s
+        return "{ " + self.block(d) + " }"
 
     def program(self, depth=2, nstmts=(1, 5), types=TYPES):
         """-> (text, exports)"""
@@ -372,6 +384,9 @@ def stmt_programs(rng: random.Random, n: int):
     items.append(dict(name="order;raw", text="{ ReV = RsV; ReV = ReV + 1; RddV = ReV; RxV = RxV + ReV; RxV = RxV * 2; ; { } { ; } }", vkey="order:raw"))
     items.append(dict(name="order;chain", text="{ int32_t a; int32_t b; a = b = RsV + 1; ReV = a + b; }", exports=[("a", "int32_t"), ("b", "int32_t")], vkey="order:chain"))
     # (4) random statement trees
+    for k, text in enumerate(bare_arm_texts()):
+        if "bump(" not in text:
+            items.append(dict(name=f"bare;{k}", text=text, exports=[("a", "int32_t")], vkey="bare"))
     g = G(rng, avoid=("stmtexpr", "const_cond", "suffix"))
     for i in range(n):
         text, ex = g.program(depth=rng.choice([2, 3, 4]), nstmts=(2, 6), types=["int32_t", "uint32_t", "int64_t", "uint64_t", "int32_t", "uint8_t", "int16_t"])
@@ -383,6 +398,24 @@ def stmt_programs(rng: random.Random, n: int):
 def bump_sub(name="bump"):
     """by-reference register operand: counts how often the call is executed"""
     return sub_item(name, "int32_t", ["HexInsnPktBundle *bundle", "const HexOp *RxV", "int32_t v"], "{ RxV = RxV + 1; return v + 1; }")
+
+
+def bare_arm_texts():
+    return ["{ int32_t a = 0; if (RsV != 0) a++; ReV = a; }",
+            "{ int32_t a = RtV; if (RsV > 0) a++; else a--; ReV = a; }",
+            "{ int32_t a = 5; if (RsV > 0) { a = 1; } else a--; ReV = a; RddV = RsV; }",
+            "{ int32_t a = 0; for (i = 0; i < (RtV & 7); i++) if (RsV & (1 << i)) a++; ReV = a; }",
+            "{ int32_t a = RsV; for (i = 0; i < (RtV & 3); i++) a++; ReV = a; RddV = i; }",
+            "{ int32_t a = 3; if (RsV & 1) a = clz32(RtV); else a = clo32(RtV); ReV = a; }",
+            "{ int32_t a = 0; if (RsV & 1) clz32(RtV); else a = 2; ReV = a; }",
+            "{ int32_t a = 1; if (RsV & 1) bump(bundle, RxV, 1); ReV = RxV + a; }",
+            "{ int32_t a = 1; if (RsV & 1) a = 2; else bump(bundle, RxV, 1); ReV = RxV + a; }",
+            "{ int32_t a = RsV; if (RtV > 3) a = ({ ReV = 1; a + 1; }); else ReV = 2; RddV = a; }",
+            "{ int32_t a = RsV; if (RtV > 3) if (RtV > 9) a++; ReV = a; }",
+            "{ int32_t a = RsV; if (RtV > 3) { if (RtV > 9) a++; else a--; } ReV = a; }",
+            "{ int32_t a = RsV; if (RtV > 3) a += 2; else if (RtV < -3) a--; else a++; ReV = a; }",
+            "{ int32_t a = RsV & 3; if (RtV & 1) mem_store_u8((RtV + a++), 7); ReV = a; }",
+            "{ int32_t a = 0; if (RsV) set_usr_field(bundle, HEX_REG_FIELD_USR_OVF, 1); else a = 1; ReV = a; }"]
 
 
 def hybrid_programs(rng: random.Random, n: int):
@@ -400,6 +433,17 @@ def hybrid_programs(rng: random.Random, n: int):
     T("post;u8", "{ uint8_t a = (uint8_t) RsV; ReV = a++; RddV = a; }", [("a", "uint8_t")])
     T("post;i64", "{ int64_t a = RuuV; RddV = a--; ReV = (a < 0); }", [("a", "int64_t")])
     T("post;arm", "{ int32_t a = RsV; ReV = (RtV > 0) ? a++ : a--; RddV = a; }", a32)
+    # arms and bodies that are one unbraced statement with a side effect
+    for k, text in enumerate(bare_arm_texts()):
+        T(f"bare;{k}", text, a32, [bs] if "bump(" in text else (), bc if "bump(" in text else None, "bare")
+    # hybrids as (converted / computed) arguments of other calls, depending on earlier statements or loop state
+    T("arg;conv", "{ int32_t a = RsV | 0x100; ReV = conv_round(clo32(~a), 0); RddV = a; }", a32, vk="arg")
+    T("arg;post", "{ int32_t a = RsV & 0xff; ReV = clo32(a++); RddV = a; }", a32, vk="arg")
+    T("arg;expr", "{ int32_t a = RsV + 5; ReV = clo32(~revbit32(a)); RddV = clz64(clz32(a) + 1); }", a32, vk="arg")
+    T("arg;loop", "{ int32_t a = 0; for (i = 0; i < (RtV & 7); i = i + clz32((uint8_t) clo32(~i))) { a += 1; if (a > 6) { i = 100; } } ReV = a; RddV = i; }", a32, vk="arg")
+    T("arg;loop2", "{ int32_t a = RsV; for (i = 0; i < 3; i++) { a = conv_round(clz32(a + i), 0) + a; } ReV = a; }", a32, vk="arg")
+    T("arg;bump", "{ int32_t a = RsV & 7; a = a + 1; ReV = clo32(~bump(bundle, RxV, a)); RddV = RxV; }", a32, [bs], bc, "arg")
+    T("arg;se", "{ int32_t a = RsV; a += 2; ReV = clz32((uint16_t) ({ a = a * 3; a; })); RddV = a; }", a32, vk="arg")
     # calls: return value, unused value, nested, in conditions / arguments / arms
     T("call;value", "{ ReV = clz32(RsV) + 1; }")
     T("call;unused", "{ ReV = RsV; clz32(RsV); RddV = ReV; }")
